@@ -38,7 +38,12 @@ RULE = ("histories of stimuli (start/ok/fail/cancel/timeout/release/close/run) o
         "replayed on the real connector, its event log is validated step by step against the extracted model and "
         "the property oracle is evaluated on the implementation after every event; suite pool_traced_oracle adds requests whose "
         "TraceConfig callbacks (reuseconn, queued_start/end, create_start/end) block on harness gates so that stimuli land at the "
-        "await points inside _get, the wait loop and around _create_connection (implementation + oracle only).  Non-trivial = at least one "
+        "await points inside _get, the wait loop and around _create_connection (implementation + oracle only); suite "
+        "session_lifecycle runs scenarios of 1-4 requests through a real ClientSession against a scripted in-memory origin / HTTP "
+        "proxy (redirect chains around max_redirects with complete, partial, chunked-partial bodies; uploads the peer does not "
+        "read with early 204/307/200; CONNECT answered 200/407/403/502/reset/garbage/hang; reset, garbage and hanging peers; "
+        "cancellation after 0-14 loop iterations; consume = read/release/close/async-with/status only) and checks after every "
+        "request that no slot and no transport is left behind.  Non-trivial = at least one "
         "request had to wait for a slot; distinct by hash of the logged event sequence and final snapshot.")
 TRUSTED = [
     "translator/gen_pool.py (_available_connections statement translator; capacity comparisons at the three call sites)",
@@ -844,6 +849,39 @@ def suite_formula(ctx, exe):
         loop.close()
 
 
+def suite_session(ctx):
+    """Call sites of the pool API (ClientSession._request exit paths, ClientResponse/ClientRequest release,
+    proxy tunnel set-up): implementation + oracle only, see harness/c07_session.py."""
+    from harness import c07_session as S
+    scs = []
+    for p in sorted(glob.glob(os.path.join(fw.VERIF, "corpus", "C07", "*.json"))):
+        c = json.load(open(p)).get("case")
+        if c and "scenario" in c:
+            scs.append(c["scenario"])
+    n = 1200 if ctx.quick else 30000
+    scs += [S.gen_scenario(ctx.rng) for _ in range(n)]
+    ran = 0
+    for sc in scs:
+        try:
+            vs, log = S.run(sc)
+        except Exception as e:  # noqa
+            ctx.disagreement("session_lifecycle", {"suite": "session_lifecycle", "scenario": sc}, "scenario runs", repr(e))
+            continue
+        ran += 1
+        ctx.case((json.dumps(sc, sort_keys=True), tuple(log)), nontrivial=any(o.startswith("status") for o in log))
+        for o in log:
+            ctx.count("session_outcome:" + o)
+        for r in sc["requests"]:
+            ctx.count("session_request:" + r["path"].split("/")[1] + ("+proxy" if r.get("proxy") else "")
+                      + ("+cancel" if r.get("cancel_after") is not None else ""))
+        for v, what in vs:
+            ctx.count("oracle:" + v["kind"])
+            ctx.violation({"suite": "session_lifecycle", "scenario": sc, "violation": v, "outcomes": log}, what)
+    if scs:
+        ctx.sample({"suite": "session_lifecycle", "scenario": scs[-1]})
+    ctx.close_suite("session_lifecycle", ran)
+
+
 def run(ctx):
     ok, exe = build_model()
     ctx.oblige("model-runner-build", "correspondence", ok, "" if ok else exe)
@@ -880,6 +918,7 @@ def run(ctx):
             batch.append((cfg, hk, None, None))
         ran += check_batch(ctx, exe, "pool_traced_oracle", batch)
     ctx.close_suite("pool_traced_oracle", ran)
+    suite_session(ctx)
     if not ctx.quick:
         ran = 0
         for cfg in ({"limit": 1, "lph": 0, "force_close": 0}, {"limit": 2, "lph": 1, "force_close": 0},
@@ -898,6 +937,12 @@ def run(ctx):
 def replay(ctx, case):
     if case.get("suite") == "available_connections":
         return {"violates": None, "note": "formula case: re-run the suite"}
+    if "scenario" in case:
+        from harness import c07_session as S
+        vs, log = S.run(case["scenario"])
+        want = (case.get("violation") or {}).get("kind")
+        hit = [v for v, _ in vs if want is None or v["kind"] == want]
+        return {"violates": bool(hit), "violations": [{"violation": v, "what": w} for v, w in vs], "outcomes": log}
     ok, exe = build_model()
     res = run_history(case["cfg"], case["hk"], case["history"], orders=case.get("orders") or [])
     if res["traced"]:       # trace gates: oracle only
